@@ -37,10 +37,11 @@ def forwardGo (s : MS) (hasVerb : Bool) : Nat → Nat → Nat
     else if s.selecting && s.isNlAt t then t
     else forwardGo s hasVerb n (min (t + 1) s.max)
 
-/-- `h` with a count. -/
-def backwardGo (s : MS) : Nat → Nat → Option Nat
-  | 0, t => some t
-  | n + 1, t => if s.isNlAt (t - 1) then none else backwardGo s n (t - 1)
+/-- `h` with a count: as far as the start of the line (fix 0954d9e; before, a count larger than the column
+made the motion fail). -/
+def backwardGo (s : MS) : Nat → Nat → Nat
+  | 0, t => t
+  | n + 1, t => if t = 0 ∨ s.isNlAt (t - 1) then t else backwardGo s n (t - 1)
 
 /-- `select_lines_down(n)`: the cursor line alone for `n = 0` (also on the last line); with lines below,
 a count that is too large takes the lines there are; the position after a final newline is no line
@@ -74,7 +75,7 @@ def evalSimple (s : MS) (m : SMotion) (count : Nat) (hasVerb : Bool) : MK :=
   match m with
   | .forwardChar =>
     (fun p => if !s.selecting && s.excl && p == s.cur then MK.null else MK.on p) (forwardGo s hasVerb count s.cur)
-  | .backwardChar => match backwardGo s count s.cur with | some p => .on p | none => .null
+  | .backwardChar => (fun p => if p == s.cur then MK.null else MK.on p) (backwardGo s count s.cur)
   | .bol => .on s.sol
   | .eol =>
     -- end_of_line() is exclusive and counts the terminator: step back onto it (fix 1f0fadd); an operator
